@@ -100,6 +100,8 @@ class Interp:
         self.onquit_cut = False
         self.fired = set()
         self.total_requests = 0
+        self.pre_request = None
+        self.terminal = False
 
         # ---- handles
         class SimHandle(d.WorldHandle):
@@ -113,6 +115,18 @@ class Interp:
                 it.loading = (self.h, it.gen[self.h])
                 it.trace.add('load', self.h, it.gen[self.h])
                 it.ev.append(('load', it.loading))
+                if it.in_run and it.cfg.get('load_quit', {}).get(
+                        str(self.h)) == it.gen[self.h]:
+                    # the world cannot be built: its loading quits. Whatever
+                    # switch was under way has not happened (terminal: the
+                    # model does not follow the loop any further)
+                    it.faults['quit_while_loading'] += 1
+                    it.probes['quit_while_next_world_loads'] += 1
+                    it.ended_by = 'quit'
+                    it.at_raise = it.pre_request or (
+                        it.loop.current_world, it.loop.current_world_handle)
+                    it.terminal = True
+                    raise d.Quit()
                 w = super().load()
                 it.cached[self.h] = it.gen[self.h]
                 return w
@@ -378,6 +392,8 @@ class Interp:
     def sop_switch(self, op, inst):
         _, T, cc, cn, fromkind = op
         d = self.desper
+        self.pre_request = (self.loop.current_world,
+                            self.loop.current_world_handle)
         if self.own_loop:
             fromkind = 'current'        # there is no usable default here
             if inst is None:
@@ -406,6 +422,8 @@ class Interp:
     def sop_raise_switch(self, op, inst):
         _, T, cc, cn = op
         d = self.desper
+        self.pre_request = (self.loop.current_world,
+                            self.loop.current_world_handle)
         frm = self.cur
         y, fresh = self.predict(frm, T, cc, cn, direct=True)
         rec = {'via': 'raise', 'from': frm, 'T': T, 'cc': cc, 'cn': cn,
@@ -518,7 +536,7 @@ class Interp:
 
     def op_run(self, op):
         _, cap, end_kind = op
-        if self.cur is None:
+        if self.cur is None or self.terminal:
             return 'skip'
         self.run_reads, self.run_cap, self.end_kind = 0, cap, end_kind
         self.ev = []
@@ -555,7 +573,8 @@ class Interp:
         if self.own_loop:
             self.probes['non_default_loop'] += 1
         self.check_time_history()
-        self.check_switch_history()
+        if not self.terminal:
+            self.check_switch_history()
         if self.nruns >= 2:
             self.probes['restart_count>=2'] += 1
         self.stats['frames'] += self.run_reads
@@ -885,6 +904,8 @@ def gen_config(prop, rng):
             rng.randint(1, 6))]
     return {'policy': rng.choice(kernel.POLICIES), 'worlds': worlds,
             'own_loop': rng.random() < .2,
+            'load_quit': ({str(rng.randrange(nw)): rng.choice([1, 2, 2, 3])}
+                          if prop == 'C14' and rng.random() < .08 else {}),
             'clock': {'start': start, 'incs': incs}}
 
 
@@ -1078,7 +1099,7 @@ PROBES = {
             'probe_on_muted_world', 'held_events_released',
             'entry_cut_by_held_event_callback', 'carried_events_released',
             'entry_cut_by_chained_switch', 'non_default_loop'],
-    'C14': ['quit_from.proc_first', 'quit_from.proc', 'quit_from.on_update',
+    'C14': ['quit_while_next_world_loads', 'quit_from.proc_first', 'quit_from.proc', 'quit_from.on_update',
             'quit_from.coroutine', 'quit_from.clock', 'boom_from.proc',
             'restart_count>=2', 'zero_delta_reading', 'jump_reading',
             'fraction_clock', 'dt_across_switch_checked', 'on_quit_checked',
